@@ -18,5 +18,6 @@ CONSTANTS
   AllowDrop = FALSE
   AllowBnShare = FALSE
   PlainOps = {"relu", "pool", "flat", "add"}
+  Biases = {TRUE, FALSE}
   AllowFindings = TRUE
   MaxHist = 0
